@@ -280,6 +280,9 @@ def run(rep, for_c07=False):
                 "600 bytes), all events enabled in every state, 13 action properties; G: every (reached state, "
                 "event) group of the dumped graph exercised on the real threaded node by edge-covering tours. distinct = (state, event) groups")
     deviations_violate(rep)
+    if not for_c07:
+        from . import validate
+        validate.stage(rep)              # what `valid` means: spec/Validate.tla against the real validators
     wd = tlc.workdir("MC_Psm")
     try:
         jobs = []
@@ -311,6 +314,13 @@ def run(rep, for_c07=False):
 def replay(rep, path):
     r = json.load(open(path))["replay"]
     nodemod.ensure_installed(0)
+    if r.get("kind") == "validate":
+        from . import validate
+        validate.replay_one(rep, r)
+        rep.case(str(r)[:80])
+        rep.states, rep.transitions = 1, 1
+        rep.sample(r)
+        return rep.finish()
     if r.get("role") == "pair":
         from . import pair
         ad = pair.PairAdapter()
